@@ -340,10 +340,11 @@ class BitSet(BaseBitSet):
 
     def _zero_extra_bits(self, size):
         bits = self.bits
-        spill = size - ((len(bits) - 1) * 8)
-        if spill:
-            mask = 2 ** spill - 1
-            bits[-1] = bits[-1] & mask
+        bucket = size >> 3
+        if bucket < len(bits):
+            bits[bucket] &= (1 << (size & 7)) - 1
+            for i in xrange(bucket + 1, len(bits)):
+                bits[i] = 0
 
     def _logic(self, obj, op, other):
         objbits = obj.bits
@@ -418,6 +419,8 @@ class BitSet(BaseBitSet):
             discard(n)
 
     def invert_update(self, size):
+        if size > len(self.bits) * 8:
+            self._resize(size - 1)
         bits = self.bits
         for i in xrange(len(bits)):
             bits[i] = ~bits[i] & 0xFF
